@@ -109,12 +109,20 @@ func ruleCopyReset(c *core.Ctx, rule string) {
 			}
 			n++
 			// the value stored must be a fresh allocation: &T{…}, T{…}, new(T) or a constructor call — not a package-level variable
-			switch v := ast.Unparen(as.Rhs[0]).(type) {
+			rhs := ast.Unparen(as.Rhs[0])
+			addr := false
+			if u, ok := rhs.(*ast.UnaryExpr); ok && u.Op == token.AND {
+				// &pkgVar: the address of one package-level value is one instance for every table
+				if id, ok := ast.Unparen(u.X).(*ast.Ident); ok {
+					rhs, addr = id, true
+				}
+			}
+			switch v := rhs.(type) {
 			case *ast.Ident:
 				if vr, ok := info.Uses[v].(*types.Var); ok && vr.Parent() == pkg.Types.Scope() {
-					if _, isStateless := stateless(info, vr); !isStateless {
+					if _, isStateless := stateless(info, vr); !isStateless || addr {
 						bad = true
-						c.Fail(rule, "NewFunctions#shared-instance:"+v.Name, as.Pos(), "function table entry is the package-level instance %s, shared by every expression", v.Name)
+						c.Fail(rule, "NewFunctions#shared-instance:"+v.Name, as.Pos(), "function table entry is (the address of) the package-level instance %s, shared by every expression and every group: a stateful function's running state (spread's range, count's counter) then includes the points of other groups and tasks, and Reset resets it for all of them", v.Name)
 					}
 				}
 			}
